@@ -128,6 +128,22 @@ class NioWalk:
                     tags[l] = tags[src]
                 if rv["k"] in ("ref", "rawptr") and rv["p"]["l"] in tags and not [e for e in rv["p"]["proj"] if e != "deref"]:
                     tags[l] = tags[rv["p"]["l"]]
+                # `match err.kind() { WouldBlock => .., Interrupted => .., _ => .. }`: the discriminant of the kind of "os error 0"
+                if rv["k"] == "discr" and not rv["p"]["proj"] and tags.get(rv["p"]["l"]) == "kind0" and "ErrorKind" in (rv.get("adt") or ""):
+                    tags[l] = "kind0discr"
+                # the remembered flag travelling by value: plain copies, a field of a guard struct, a read of that field
+                if nf.flag is not None:
+                    if rv["k"] in ("use", "cast") and src == nf.flag and not rv["a"]["p"]["proj"]:
+                        tags[l] = "flag"
+                    elif rv["k"] == "agg":
+                        for i, o in enumerate(rv["ops"]):
+                            ol = op_local(o)
+                            if ol is not None and not o["p"]["proj"] and (ol == nf.flag or tags.get(ol) == "flag"):
+                                tags[l] = ("hasflag", i)
+                    elif rv["k"] == "use" and src is not None and isinstance(tags.get(src), tuple) and tags[src][0] == "hasflag":
+                        fs = [e for e in rv["a"]["p"]["proj"] if e != "deref"]
+                        if len(fs) == 1 and isinstance(fs[0], dict) and fs[0].get("i") == tags[src][1]:
+                            tags[l] = "flag"
                 if rv["k"] == "binop" and rv["op"] in ("Eq", "Ne") :
                     a, c = _root(du, bid, rv["a"]), _root(du, bid, rv["b"])
                     ca, cc = op_const(rv["a"]), op_const(rv["b"])
@@ -219,11 +235,14 @@ class NioWalk:
                 dl = _root(du, bid, t["discr"])
                 val = None
                 tg = tags.get(op_local(t["discr"])) or tags.get(dl)
-                if nf.flag is not None and dl == nf.flag and blocking is not None:
+                if nf.flag is not None and (dl == nf.flag or tg == "flag") and blocking is not None:
                     val = 1 if blocking else 0
                 elif isinstance(tg, tuple) and tg[0] == "bool":
                     val = 1 if tg[1] else 0
-                if val is not None:
+                if tg == "kind0discr":
+                    # errno was reset: the kind is none of the named ones, only the wildcard arm is feasible
+                    nxt.append(t["otherwise"])
+                elif val is not None:
                     tgt = [bb for v, bb in t["targets"] if int(v) == val]
                     nxt.append(tgt[0] if tgt else t["otherwise"])
                 elif isinstance(tg, tuple) and tg[0] == "rtest":
